@@ -171,20 +171,19 @@
 #define VALUE_MASK                                                             \
     ((uint32_t)(MICRO_PROMOTION_TYPE)((1ULL << BITS_PER_VALUE) - 1))
 
-/* This define is an optimization.  If we are using compact storage
- * (example: storing 12 bit packed across slots of uint8_t), then we
- * know up front we can *never* store a packed value inside just one
- * slot.  If we let the compiler know this too, it can optimize away
- * the "if (value in one slot)" branch and just use always-two-slot
- * reading/writing. */
-#ifndef PACK_STORAGE_COMPACT
+/* A packed value lies inside one slot whenever it fits in the bits remaining
+ * from its start position (BITS_PER_VALUE <= bitsAvailable); only then may the
+ * second slot be left alone.  The test must also be made for compact storage:
+ * a compact array whose values are not wider than its slots (e.g. 3 bit values
+ * in uint8_t slots) otherwise always takes the two-slot path, which reads the
+ * neighbours' bits as part of the value and reads/rewrites out[1] one slot
+ * past the end of an exactly sized array for the last element.
+ * BITS_PER_SLOT has a sizeof() the preprocessor doesn't know about, so the
+ * test is an ordinary 'if' on constants: when values are always wider than a
+ * slot (example: 12 bits packed across uint8_t slots) bitsAvailable is known
+ * to be at most BITS_PER_SLOT and the compiler removes the one-slot branch, so
+ * always-two-slot reading/writing is still what gets generated. */
 #define SLOT_CAN_HOLD_ENTIRE_VALUE 1
-#endif
-/* We can't define HOLD_ENTIRE_VALUE as below because BITS_PER_SLOT has sizeof()
- * the preprocessor doesn't know about.  We don't want to manually define bit
- * widths per type, so we juse use the STORAGE_COMPACT setting to determine
- * if we are using sub-slot-widths or not.
- * #define SLOT_CAN_HOLD_ENTIRE_VALUE (BITS_PER_VALUE <= BITS_PER_SLOT) */
 
 /* Math helpers */
 #define startOffset(offset) ((uint64_t)(offset) * BITS_PER_VALUE)
